@@ -6,7 +6,9 @@ import (
 	"encoding/hex"
 	"fmt"
 	"math/big"
+	"os"
 	"sort"
+	"strconv"
 	"strings"
 
 	abci "github.com/cometbft/cometbft/abci/types"
@@ -40,6 +42,7 @@ type Report struct {
 	Ops      []chain.StoreOp
 	Events   []*ref.Event
 	Sent     [][]byte // decoded MessageSent payloads in order
+	SentIdx  []int    // index of the transaction message that emitted each of them (msg_index attribute; -1 unknown)
 	RespNonces []uint64
 	Adopted  bool
 	PreHash  [32]byte
@@ -79,6 +82,7 @@ type Engine struct {
 	SumAccepted  *big.Int // amounts of module-addressed burn messages accepted (distinct pairs)
 	SumBurnReq   *big.Int // successful Burn requests of successful transactions
 	SumDeposits  *big.Int // amounts stated by module-sent messages emitted by deposits
+	dbgCons      bool
 	ModuleHeld   *big.Int // coins minted to the module's own account since the ledger baseline
 	c13Broken    bool
 	c13Started   bool
@@ -795,6 +799,15 @@ func (e *Engine) decodeEvents(tx *Tx, rep *Report) {
 				continue
 			}
 			rep.Sent = append(rep.Sent, b)
+			mi := -1
+			for _, a := range ev.Attributes {
+				if a.Key == "msg_index" {
+					if v, err := strconv.Atoi(strings.Trim(a.Value, "\"")); err == nil {
+						mi = v
+					}
+				}
+			}
+			rep.SentIdx = append(rep.SentIdx, mi)
 		}
 	}
 	// responses
@@ -1387,13 +1400,26 @@ func (e *Engine) trackConservation(tx *Tx, rep *Report) {
 		}
 	}
 	if producers > 0 {
-		for _, raw := range rep.Sent {
+		for i, raw := range rep.Sent {
+			// only messages emitted by a deposit (a replace-deposit-for-burn in the same transaction re-emits a burn
+			// message without burning anything)
+			if i < len(rep.SentIdx) && rep.SentIdx[i] >= 0 && rep.SentIdx[i] < len(tx.Msgs) {
+				switch tx.Msgs[rep.SentIdx[i]].(type) {
+				case *ct.MsgDepositForBurn, *ct.MsgDepositForBurnWithCaller:
+				default:
+					continue
+				}
+			}
 			if d, err := ref.DecodeMessage(raw); err == nil && bytes.Equal(d.Sender, modulePadded) {
 				if b, err := ref.DecodeBurn(d.Body); err == nil {
 					e.SumDeposits.Add(e.SumDeposits, b.Amount)
 				}
 			}
 		}
+	}
+	if os.Getenv("VERIF_DEBUG_CONSERVATION") != "" && e.SumBurnReq.Cmp(e.SumDeposits) != 0 && !e.dbgCons {
+		e.dbgCons = true
+		fmt.Printf("DEBUG conservation first diverges at: %s\n  deps=%s\n  sent=%d\n", trunc(describeTx(tx), 3000), depSummary(rep.Deps), len(rep.Sent))
 	}
 }
 
